@@ -43,6 +43,9 @@ func init() {
 	register("C08multi", func(s *simrt.Sim) *Result {
 		return RunRoute(s, RouteProfile{Name: "C08multi", Multi: true, Faults: true, Churn: true, Cleanup: true})
 	})
+	register("C04crash", func(s *simrt.Sim) *Result {
+		return RunRoute(s, RouteProfile{Name: "C04crash", Multi: true, Faults: true, Crash: true, Cleanup: true})
+	})
 	register("C04bias", func(s *simrt.Sim) *Result {
 		return RunRoute(s, RouteProfile{Name: "C04bias", Faults: true, BiasFaults: true, Cleanup: true})
 	})
